@@ -26,7 +26,10 @@ use crate::mqtt::connection::GenericConnection;
 use crate::mqtt::connection::GenericEvent;
 use crate::mqtt::packet::IsPacketId;
 use crate::mqtt::packet::{v3_1_1, v5_0};
+#[cfg(not(feature = "verif-models"))]
 use alloc::vec::Vec;
+#[cfg(feature = "verif-models")]
+use crate::mqtt::common::verif_model::Vec;
 
 macro_rules! impl_sendable_helper {
     ($role:ty, $packet_type:ty, $method:ident, $process_method:ident) => {
